@@ -149,10 +149,10 @@ Fixpoint escape_loop (fuel : nat) (s : str) (acc : str) (brk : bool) : str :=
 
 (* whole = validated ++ pending; result is the new whole buffer *)
 Definition escape_from (validated pending : str) (brk : bool) : str :=
-  let acc := escape_loop (List.length pending) pending (rev validated) brk in
-  let acc' := if last_rune_invalid_rev (rev pending ++ rev validated)
+  let acc := escape_loop (List.length pending) pending (frev validated) brk in
+  let acc' := if last_rune_invalid_rev (frev pending ++ frev validated)
               then qmark :: acc else acc in
-  rev acc'.
+  frev acc'.
 
 (* rfmt.EscapeBytes(s): "‹" + escape(s, breakNewLines) + "›" *)
 Definition escape_bytes (s : str) : str :=
